@@ -903,9 +903,12 @@ func (o *ovsdbClient) MonitorCancel(ctx context.Context, cookie MonitorCookie) e
 func (o *ovsdbClient) Monitor(ctx context.Context, monitor *Monitor) (MonitorCookie, error) {
 	cookie := newMonitorCookie(o.primaryDBName)
 	db := o.databases[o.primaryDBName]
+	// lock order is rpcMutex, then monitorsMutex, as on the reconnect path
+	o.rpcMutex.RLock()
+	defer o.rpcMutex.RUnlock()
 	db.monitorsMutex.Lock()
 	defer db.monitorsMutex.Unlock()
-	return cookie, o.monitor(ctx, cookie, false, monitor)
+	return cookie, o.monitorLocked(ctx, cookie, false, monitor)
 }
 
 // If fields is provided, the request will be constrained to the provided columns
@@ -1155,9 +1158,12 @@ func (o *ovsdbClient) watchForLeaderChange() error {
 	m.Method = ovsdb.ConditionalMonitorRPC
 	m.Tables = []TableMonitor{{Table: "Database"}}
 	db := o.databases[serverDB]
+	// lock order is rpcMutex, then monitorsMutex, as on the reconnect path
+	o.rpcMutex.RLock()
+	defer o.rpcMutex.RUnlock()
 	db.monitorsMutex.Lock()
 	defer db.monitorsMutex.Unlock()
-	err := o.monitor(context.Background(), newMonitorCookie(serverDB), false, m)
+	err := o.monitorLocked(context.Background(), newMonitorCookie(serverDB), false, m)
 	if err != nil {
 		return err
 	}
